@@ -64,9 +64,9 @@ CHECKS = {
         engine="kani", category="model_checking", ref="DESIGN.md 3, 5 (C06)",
         technique="bounded model checking of the real Rust kernels with Kani/CBMC (SAT): panic-freedom and functional assertions over symbolic digit strings, types, numbers and spans",
         text="RESTRICTED SCOPE: panic-freedom (Kani checks unwrap/expect/index/overflow/unreachable by default) of the literal, number and span kernels that every text entry point funnels into - "
-             "parse_decimal / parse_binary / parse_hexadecimal at EVERY integer type, U256::from_str, Pow2Usize / NonZeroPow2Usize constructors, Span::to_slice on the spans pest can produce - for all digit strings "
+             "parse_decimal / parse_binary / parse_hexadecimal at EVERY integer type, U256::from_str, Pow2Usize / NonZeroPow2Usize constructors, Span::to_slice on the spans pest can produce, the whole-text span Span::from(&str) of the type/value/module error paths for ALL texts of <= 5 bytes - for all digit strings "
              "/ numbers / 3-byte files within the stated length bounds. The pest-generated parser, parse.rs tree construction, ast.rs, JSON/module parsing, error rendering and stack depth are NOT encodable and are outside the claim.",
-        note="Trusted: Kani 0.68 / CBMC 6.11 and Kani's models of std; ASCII stubs for str::chars (sound because the grammar only lets ASCII digits through); unwinding assertions on; every harness has a reachability witness (kani::cover!)."),
+        note="Trusted: Kani 0.68 / CBMC 6.11 and Kani's models of std; ASCII stubs for str::chars (sound because the grammar only lets ASCII digits through); a byte-loop model of str::Lines::next/next_back for the Span::from(&str) harnesses (std's own iterator runs CBMC out of memory); unwinding assertions on; every harness has a reachability witness (kani::cover!)."),
     "C07": dict(
         engine="simsym", category="translation_validation", ref="DESIGN.md 3, 5 (C07)",
         technique="Kani/CBMC bounded model checking of the layout step (as_node) + SMT (z3 QF_UFBV) proof that every admissible cast preserves all bits + enumeration of cast admissibility and type structures against the book's casting table",
@@ -78,8 +78,8 @@ CHECKS = {
         engine="simsym", category="model_checking", ref="DESIGN.md 3, 5 (C11)",
         technique="(a) Kani/CBMC bounded model checking of the literal parsers over ALL digit strings of the stated lengths; (b) SMT-based translation validation of `let x: T = <literal>` programs",
         text="(a) Kani: parse_decimal accepts a digit string iff its value fits and returns exactly that value - all strings of the three lengths around each width's maximum (u1..u64; u128 thorough); parse_binary: all bit strings of length 1..32 (64 thorough) against every type; "
-             "parse_hexadecimal: all strings of 0..4 digits (8,16 thorough) against every type, big-endian byte conversion for every byte length; U256::from_str up to 5 digits; digit-less literals rejected everywhere; every printed u8 parses back. "
-             "(b) E1: ~900 literal programs (widths 1..256 x boundary values x dec/bin/hex x underscore placements, leading zeros, upper case, byte arrays up to 64 bytes): z3 proves the compiled program succeeds iff the quantified witness equals the literal's value; ~130 ill-formed literals must be rejected. This part covers the grammar rules and parse.rs's underscore stripping.",
+             "parse_hexadecimal: all strings of 0..4 digits (8 thorough; 16 digits run CBMC out of memory) against every type, big-endian byte conversion for every byte length; U256::from_str up to 5 digits; digit-less literals rejected everywhere; every printed u8 parses back. "
+             "(b) E1: ~2 900 literal programs (widths 1..256 x boundary values - of the width itself and of every narrower width - x the largest and a random number of EVERY decimal digit count x dec/bin/hex x underscore placements, leading zeros, upper case, every u8 value and every leading hex byte, byte arrays up to 64 bytes): z3 proves the compiled program succeeds iff the quantified witness equals the literal's value; ~180 ill-formed literals must be rejected. This part covers the grammar rules and parse.rs's underscore stripping.",
         note=TRUST_E1 + " Kani part: Kani's std models, ASCII stubs for str::chars in the binary and u256 harnesses."),
     "C12": dict(
         engine="simsym", category="translation_validation", ref="DESIGN.md 2, 5 (C12)",
